@@ -2,7 +2,11 @@ import ParryModel.C17.Lemmas
 /-!
 # C17 property theorems: cutting and clipping, for every linearly ordered field.
 All statements quantify over the model functions of `C17/Model.lean` instantiated at the lawful instance `fieldNum K sq`.
-Point-set specifications: `C09.BMem` (closed box), `IntMem` (open box), half-spaces as inequalities on coordinates / `V3.dot`.
+Specification vocabulary (defined with docstrings in `C17/Lemmas.lean`): `C09.BMem` (closed box), `ValidBox`, `IntMem` (open box), `InteriorDisjoint`,
+`lineAt o d t` (= `o + t·d`), `big K` (= `f64::MAX`), `eps52 K` (= `f64::EPSILON`), `FaceHit` (side index ↔ face of the box), `replayCuts`
+(replay of a cut sequence with `canonical_split`), `segPt a b t` (= `a + t(b-a)`), `hsVal c n p` (= `n·(p-c)`), `Hull` (convex hull as the
+least segment-closed set), `SHVertex` (provenance of a Sutherland–Hodgman output vertex), `proj1` (projection on a segment's direction);
+half-spaces of planes are inequalities on `V3.dot`.
 -/
 namespace C17
 open Model C09
@@ -444,6 +448,50 @@ theorem aabb_difference_spec (a rhs : Aabb3 K) (hr : ValidBox rhs) :
       · exact h
       · exact (cov p).mpr (Or.inr h)
 
+
+/-- **C17 (`difference_with_cut_sequence`, the cut sequence)**: when the boxes are disjoint (or merely touch) the result is
+`([self], [])`; otherwise, for a `rhs` with non-empty interior, replaying the returned cuts on `self` one after the other with
+`Aabb::canonical_split` — each cut taking the piece in the negative half-space of its plane as the next fragment and leaving the
+other piece to the following cuts, as the documentation says — reproduces exactly the returned fragments, in order. -/
+theorem aabb_difference_cut_sequence (a rhs : Aabb3 K)
+    (hr : ∀ i : Fin 3, rhs.mins.get i.val < rhs.maxs.get i.val) :
+    letI := fieldNum K sq
+    (∃ rest, replayCuts sq a (a.differenceWithCutSequence rhs).2 = some ((a.differenceWithCutSequence rhs).1, rest)) ∨
+    (a.differenceWithCutSequence rhs = ([a], []) ∧ InteriorDisjoint a rhs) := by
+  letI : Num K := fieldNum K sq
+  simp only [Aabb3.differenceWithCutSequence, Aabb3.differenceState]
+  split_ifs with hdis
+  · right
+    refine ⟨rfl, ?_⟩
+    simp only [Bool.or_eq_true] at hdis
+    rcases hdis with (h | h) | h
+    · exact disjointOn_interior sq a rhs 0 h
+    · exact disjointOn_interior sq a rhs 1 h
+    · exact disjointOn_interior sq a rhs 2 h
+  · left
+    simp only [Bool.or_eq_true, not_or, Aabb3.diffDisjointOn, decide_eq_true_eq, not_le] at hdis
+    obtain ⟨⟨⟨h0a, h0b⟩, h1a, h1b⟩, h2a, h2b⟩ := hdis
+    have inv0 : DiffInv a rhs a [] := ⟨fun p => by simp, fun f hf => by simp at hf, fun f hf => by simp at hf, List.Pairwise.nil⟩
+    set st0 : Aabb3.DiffState K := { rest := a, pieces := [], cuts := [] } with hst0
+    have rep0 : replayCuts sq a st0.cuts = some (st0.pieces, st0.rest) := rfl
+    obtain ⟨i0, m0, M0⟩ := diffStep_inv sq a rhs st0 0 inv0 h0a h0b (hr 0).le
+    have rep1 := diffStep_replay sq a rhs st0 0 rep0 h0a h0b (hr 0)
+    set st1 := Aabb3.diffStep rhs st0 0 with hst1
+    have e1a : st1.rest.mins.get (1 : Fin 3).val = a.mins.get (1 : Fin 3).val := by rw [m0 1]; simp [hst0]
+    have e1b : st1.rest.maxs.get (1 : Fin 3).val = a.maxs.get (1 : Fin 3).val := by rw [M0 1]; simp [hst0]
+    obtain ⟨i1, m1, M1⟩ := diffStep_inv sq a rhs st1 1 i0 (by rw [e1a]; exact h1a) (by rw [e1b]; exact h1b) (hr 1).le
+    have rep2 := diffStep_replay sq a rhs st1 1 rep1 (by rw [e1a]; exact h1a) (by rw [e1b]; exact h1b) (hr 1)
+    set st2 := Aabb3.diffStep rhs st1 1 with hst2
+    have e2a : st2.rest.mins.get (2 : Fin 3).val = a.mins.get (2 : Fin 3).val := by rw [m1 2, m0 2]; simp [hst0]
+    have e2b : st2.rest.maxs.get (2 : Fin 3).val = a.maxs.get (2 : Fin 3).val := by rw [M1 2, M0 2]; simp [hst0]
+    have rep3 := diffStep_replay sq a rhs st2 2 rep2 (by rw [e2a]; exact h2a) (by rw [e2b]; exact h2b) (hr 2)
+    exact ⟨_, rep3⟩
+
+example : (letI := fieldNum ℚ id; (replayCuts id (⟨⟨0, 0, 0⟩, ⟨4, 4, 4⟩⟩ : Aabb3 ℚ)
+    ((⟨⟨0, 0, 0⟩, ⟨4, 4, 4⟩⟩ : Aabb3 ℚ).differenceWithCutSequence ⟨⟨1, -1, 1⟩, ⟨2, 5, 9⟩⟩).2).map fun r => r.1.length) = some 3 := by
+  decide +kernel
+example : ∀ i : Fin 3, (⟨⟨1, -1, 1⟩, ⟨2, 5, 9⟩⟩ : Aabb3 ℚ).mins.get i.val < (⟨⟨1, -1, 1⟩, ⟨2, 5, 9⟩⟩ : Aabb3 ℚ).maxs.get i.val := by
+  intro i; rcases i with ⟨_ | _ | _ | n, hi⟩ <;> simp [V3.get] <;> first | norm_num | omega
 
 example : (letI := fieldNum ℚ id; ((⟨⟨0, 0, 0⟩, ⟨4, 4, 4⟩⟩ : Aabb3 ℚ).differenceWithCutSequence ⟨⟨1, -1, 1⟩, ⟨2, 5, 9⟩⟩).1.length) = 3 := by
   decide +kernel
